@@ -629,4 +629,171 @@ theorem load_linear_result (rs : Repo) (b : Branch) (depth : Int) (g : Hdr)
         have : lo ≤ k := by omega
         simp only [this, ↓reduceIte]; rfl
 
+/-! ### Save, then Load: nothing observable changes -/
+
+theorem posOf_some_iff (hs : List HData) (hnd : (hs.map (·.hdr.id)).Nodup) (id k : Nat) :
+    posOf hs id = some k ↔ ∃ d, hs[k]? = some d ∧ d.hdr.id = id := by
+  constructor
+  · intro h
+    unfold posOf at h
+    rw [List.findIdx?_eq_some_iff_getElem] at h
+    obtain ⟨hlt, hid, _⟩ := h
+    exact ⟨hs[k], List.getElem?_eq_getElem hlt, by simpa using hid⟩
+  · rintro ⟨d, hk, hid⟩
+    exact findIdx?_id_some hs id k d hnd hk hid
+
+/-- one-branch repositories: `Branches.Find` is the root's own map. -/
+theorem branchesFind_single (rr : Repo) (b : Branch) (ha : rr.arena = [b]) (hb : rr.branches = [0]) (hp : b.parent = none)
+    (id : Nat) : rr.branchesFind id = (b.hmap.get? id).map (fun h => (0, h)) := by
+  unfold Repo.branchesFind Repo.find Repo.fuel
+  rw [hb, ha]
+  simp only [List.findSome?_cons, List.findSome?_nil, List.length_cons, List.length_nil, bfind, List.getElem?_cons_zero, hp]
+  cases b.hmap.get? id <;> rfl
+
+theorem at_single (rr : Repo) (b : Branch) (ha : rr.arena = [b]) (hp : b.parent = none) (k : Int) :
+    rr.at 0 k = if k > b.parentHeight then getI b.headers (k - b.parentHeight - b.offset) else none := by
+  unfold Repo.at Repo.fuel
+  rw [ha]
+  simp only [List.length_cons, List.length_nil, atHeight, List.getElem?_cons_zero, hp]
+
+/-- **Save then Load restores the same repository** (linear chain, any load depth ≥ 0, across the
+    1000-header file boundaries): both succeed, and the loaded repository reports the same tip
+    (height, hash, work), the same header at EVERY height ≥ 0 — from memory above the load depth,
+    from the files below —, and the same height for EVERY hash (pruned headers through the
+    historical heights read back from the files; unknown hashes stay unknown). -/
+theorem save_load_linear (r : Repo) (hl : Linear r) (depth : Int) (hd : 0 ≤ depth) (g : Hdr) :
+    ∃ rs rl, save r = (rs, none) ∧ load rs depth g = (rl, none) ∧
+      tipHeight rl = tipHeight r ∧ tipId rl = tipId r ∧ tipWork rl = tipWork r ∧
+      (∀ k : Int, 0 ≤ k → headerAt rl k = headerAt r k) ∧ (∀ id, hashHeight rl id = hashHeight r id) ∧
+      rl.invalid = mergedInvalid rs.store rs.cfg ∧ rs.store.invalid = some r.invalid := by
+  obtain ⟨har, hbr, hpar, hph, hoff, hne, hfirst⟩ := linear_facts r hl
+  have hw := hl.wf.chain.wf.link
+  have hids := hl.wf.chain.wf.ids
+  have hlen : 0 < r.arena.length := by rw [hl.one]; omega
+  have hb0 : r.arena[0]? = some (r.br 0) := by
+    unfold Repo.br; rw [List.getElem?_eq_getElem hlen]; rfl
+  have hnd := branch_ids_nodup r.arena r.branches hids 0 (r.br 0) hb0
+  have hL : 0 < (r.br 0).headers.length := List.length_pos_iff.mpr hne
+  obtain ⟨rs, hsave, hfiles, hsb, hsi, hsv, hscfg, hsdd, hsds⟩ := save_linear r hl
+  obtain ⟨rl, hload, hla, hlb, hll, hls, hli, hlc, _, _, hlh⟩ := load_linear_result rs (r.br 0) depth g hsi hsb hph hoff hne hd hnd hfiles
+    (by intro d hd0; rw [hscfg]; exact hl.gen d hd0)
+  refine ⟨rs, rl, hsave, hload, ?_, ?_, ?_, ?_, ?_, hli, hsv⟩
+  all_goals
+    have hlr := loadedRoot_eq (r.br 0) depth hph hoff hd hne
+    obtain ⟨q1, q2, q3, q4, q5, q6, q7⟩ := root_pruned (branchOfFile (rootFile (r.br 0))) hph hoff
+      (((r.br 0).headers.length : Int) - 1 - depth) (by show _ < (((r.br 0).headers.length : Nat) : Int); omega)
+    rw [← hlr] at q1 q2 q3 q4 q5 q6 q7
+    have hbr0l : rl.br 0 = loadedRoot (r.br 0) depth := by unfold Repo.br; rw [hla]; rfl
+  · unfold tipHeight; rw [hll, hl.root, hbr0l, q3]; rfl
+  · unfold tipId Repo.lastOf; rw [hll, hl.root, hbr0l, q4]; rfl
+  · unfold tipWork Repo.lastOf; rw [hll, hl.root, hbr0l, q4]; rfl
+  · intro k hk
+    have hH : H = 1000 := rfl
+    unfold headerAt
+    rw [hll, hl.root, hbr0l, q3]
+    have hbh : (branchOfFile (rootFile (r.br 0))).height = (r.br 0).height := rfl
+    rw [hbh]
+    have hhe := branch_height_eq (r.br 0) hoff
+    by_cases hbeyond : k > (r.br 0).height
+    · simp only [hbeyond, ↓reduceIte]
+    · simp only [hbeyond, ↓reduceIte]
+      have hklt : k.toNat < (r.br 0).headers.length := by omega
+      have hold : r.at 0 k = some ((r.br 0).headers[k.toNat]) := by
+        rw [at_single r (r.br 0) har hpar k, hph]
+        have : k > -1 := by omega
+        simp only [this, ↓reduceIte]
+        unfold getI
+        have n : ¬ (k - -1 - (r.br 0).offset < 0) := by omega
+        simp only [n, ↓reduceIte]
+        have e : (k - -1 - (r.br 0).offset).toNat = k.toNat := by omega
+        rw [e, List.getElem?_eq_getElem hklt]
+      rw [hold]
+      have hlpar : (loadedRoot (r.br 0) depth).parent = none := q1
+      by_cases hkP : ((r.br 0).headers.length : Int) - 1 - depth ≤ k
+      · have hnew : rl.at 0 k = some ((r.br 0).headers[k.toNat]) := by
+          rw [at_single rl _ hla hlpar k, q2]
+          have : k > -1 := by omega
+          simp only [this, ↓reduceIte]
+          have h5 := q5 k hkP
+          rw [q2] at h5
+          rw [h5]
+          show getI (r.br 0).headers (k - (r.br 0).parentHeight - (r.br 0).offset) = _
+          unfold getI
+          have n : ¬ (k - (r.br 0).parentHeight - (r.br 0).offset < 0) := by omega
+          simp only [n, ↓reduceIte]
+          have e : (k - (r.br 0).parentHeight - (r.br 0).offset).toNat = k.toNat := by omega
+          rw [e, List.getElem?_eq_getElem hklt]
+        rw [hnew]
+      · have hnew : rl.at 0 k = none := by
+          rw [at_single rl _ hla hlpar k, q2]
+          have : k > -1 := by omega
+          simp only [this, ↓reduceIte]
+          have h6 := q6 k (by omega)
+          rw [q2] at h6
+          exact h6
+        rw [hnew]
+        simp only
+        -- served from the files
+        have hfn : k.toNat / H < (r.br 0).headers.length / H + 1 := by rw [hH]; omega
+        have hrec := hfiles (k.toNat / H) hfn
+        have hkn : k = ((k.toNat : Nat) : Int) := by omega
+        have hfile : Int.tdiv k hpf = ((k.toNat / H : Nat) : Int) := by
+          rw [hpf_eq]
+          conv => lhs; rw [hkn]
+          rfl
+        unfold getData
+        rw [hfile, hls, Int.toNat_natCast, hrec]
+        simp only
+        have hidx : k - ((k.toNat / H : Nat) : Int) * hpf = ((k.toNat % H : Nat) : Int) := by
+          rw [hpf_eq, hH]; omega
+        rw [hidx]
+        unfold getI
+        have hnn : ¬ (((k.toNat % H : Nat) : Int) < 0) := by omega
+        simp only [hnn, ↓reduceIte, Int.toNat_natCast]
+        rw [slice_getElem? _ _ _ (Nat.mod_lt _ H_pos)]
+        have : k.toNat / H * H + k.toNat % H = k.toNat := by rw [hH]; omega
+        rw [this, List.getElem?_eq_getElem hklt]
+  · intro id
+    -- before: the root's own map, exact
+    have hold : hashHeight r id = (posOf (r.br 0).headers id).map Int.ofNat := by
+      unfold hashHeight
+      rw [branchesFind_single r (r.br 0) har hbr hpar id]
+      cases hg : (r.br 0).hmap.get? id with
+      | some h =>
+        simp only [Option.map_some]
+        obtain ⟨k, d, hk, hid, hh⟩ := ((hids.exact 0 _ hb0) id h).mp hg
+        rw [(posOf_some_iff _ hnd id k).mpr ⟨d, hk, hid⟩]
+        simp only [Option.map_some, Option.some.injEq]
+        rw [hh, hph]
+        show (-1 : Int) + 1 + (k : Int) = (k : Int)
+        omega
+      | none =>
+        simp only [Option.map_none]
+        cases hp : posOf (r.br 0).headers id with
+        | none =>
+          simp only [Option.map_none]
+          cases hh : r.heights.get? id with
+          | none => rfl
+          | some x =>
+            obtain ⟨bj, b, k, d, hb, hk, hid, _⟩ := hl.wf.chain.wf.heights id x hh
+            have hbj : bj = 0 := by have := getElem?_lt _ _ _ hb; rw [hl.one] at this; omega
+            subst hbj
+            rw [hb0] at hb; simp only [Option.some.injEq] at hb; subst hb
+            rw [(posOf_some_iff _ hnd id k).mpr ⟨d, hk, hid⟩] at hp
+            cases hp
+        | some k =>
+          obtain ⟨d, hk, hid⟩ := (posOf_some_iff _ hnd id k).mp hp
+          have := ((hids.exact 0 _ hb0) id ((r.br 0).parentHeight + 1 + (k : Int))).mpr ⟨k, d, hk, hid, rfl⟩
+          rw [hg] at this; cases this
+    rw [hold]
+    unfold hashHeight
+    have hlpar : (loadedRoot (r.br 0) depth).parent = none := q1
+    rw [branchesFind_single rl _ hla hlb hlpar id, q7 id, hlh id]
+    have hbm := bof_hmap (r.br 0) hph hoff hnd id
+    by_cases hdrop : ∃ d ∈ (branchOfFile (rootFile (r.br 0))).headers.take
+        (((r.br 0).headers.length : Int) - 1 - depth).toNat, d.hdr.id = id
+    · simp only [hdrop, ↓reduceIte, Option.map_none]
+    · simp only [hdrop, ↓reduceIte, hbm]
+      cases posOf (r.br 0).headers id <;> rfl
+
 end BRV.Repo
